@@ -328,9 +328,9 @@ def sweep_start(ctx):
 
 def sweep_finish(ctx, p):
     try:
-        out = p.stdout.read()
-        err = p.stderr.read()
-        rc = p.wait(timeout=1500)
+        p.stdin = None                                 # already closed by sweep_start; communicate() must not flush it
+        out, err = p.communicate(timeout=1500)         # drains stdout and stderr together (reading one first can deadlock)
+        rc = p.returncode
     except Exception as e:                         # pragma: no cover
         p.kill()
         ctx.tie_broken("harness", "sweep-timeout", repr(e))
@@ -342,18 +342,34 @@ def sweep_finish(ctx, p):
     res = json.loads(lines[-1])
     if os.environ.get("C08_WRITE_BASELINE") == "1":
         os.makedirs(os.path.dirname(_BASELINE), exist_ok=True)
-        old = set(json.load(open(_BASELINE))["mismatches"]) if os.path.exists(_BASELINE) else set()
+        _old = json.load(open(_BASELINE)) if os.path.exists(_BASELINE) else {}
+        old = set(_old.get("mismatches", []))
+        _old_details = _old.get("details", {})
         with open(_BASELINE, "w") as f:
-            json.dump({"comment": "mismatches (traced graph on onnxruntime vs torch eager) observed by harness/c08_sweep.py on the pinned tree for "
-                                  "OpInfo samples that the repository does not list as skip/xfail; exploration-grade, not violations. "
-                                  "A mismatch that is NOT in this list is reported as a violation.",
+            json.dump({"comment": "known-findings file of the C08 sweep: mismatches (traced torch_lib function on onnxruntime vs torch eager) that "
+                                  "harness/c08_sweep.py observes on the pinned tree for OpInfo samples (as-is or perturbed, torch accepting the "
+                                  "call) that the repository does not list as skip/xfail. Written only by a developer run with C08_WRITE_BASELINE=1, "
+                                  "never by a check. Each listed mismatch seen again is printed as KNOWN-FINDING; one that is NOT listed is a violation.",
                        "mismatches": sorted(old | set(res["mismatches"])),
-                       "details": {k: res["details"].get(k, "") for k in sorted(res["mismatches"])}}, f, indent=1)
-    base = set(json.load(open(_BASELINE))["mismatches"]) if os.path.exists(_BASELINE) else set()
+                       "details": {**_old_details, **{k: res["details"].get(k, "") for k in sorted(res["mismatches"])}}}, f, indent=1)
+    bdoc = json.load(open(_BASELINE)) if os.path.exists(_BASELINE) else {"mismatches": [], "details": {}}
+    base = set(bdoc["mismatches"])
     new = [k for k in res["mismatches"] if k not in base]
-    for k in new:
+
+    def vkey(k):
         opname, variant, fname, dtype, si, tag, kind = k.split("|")
-        ctx.violation(f"C08:sweep:{fname}:{dtype}:{tag}:{kind}",
+        return f"C08:sweep:{fname}:{dtype}:#{si}:{tag}:{kind}"
+    # the committed sweep baseline is a known-findings file: every listed mismatch that this run observes again is printed as a
+    # KNOWN-FINDING (keyed by function, dtype, OpInfo sample index, perturbation and kind of mismatch); anything else is a violation
+    have = {f["key"] for f in ctx.findings}
+    for k in sorted(base):
+        if vkey(k) not in have:
+            ctx.findings.append({"property": "C08", "status": "known", "key": vkey(k),
+                                 "what": "listed in corpus/C08/sweep_baseline.json (mismatch torch eager vs traced torch_lib function on onnxruntime "
+                                         "on the pinned tree): " + str(bdoc.get("details", {}).get(k, ""))[:160]})
+    for k in sorted(res["mismatches"]):
+        opname, variant, fname, dtype, si, tag, kind = k.split("|")
+        ctx.violation(vkey(k),
                       f"{fname} on OpInfo sample #{si} of '{opname}' ({dtype}, {tag}): traced graph on onnxruntime vs torch eager: {kind}: "
                       f"{res['details'].get(k, '')[:200]}",
                       {"sweep_key": k, "detail": res["details"].get(k, ""), "config": _SWEEP_CFG[ctx.tier],
